@@ -241,6 +241,30 @@ def case_index(case):
                         center_order=len(case["center_coeffs"]), width_order=len(case["width_coeffs"]), shift=case["shifts"] is not None,
                         wavenumber=case["wavenumber"]))  # fmt: skip
             break
+    if disp and not vs:
+        # the result reports, per Gaussian and global index, the centre the matrix was built with (before the shift)
+        import warnings
+
+        from glotaran.optimization.optimize import optimize
+
+        data = {"d1": B.noisy_dataset(TIMES, np.asarray(axis, dtype=float), seed=2, salt="c05")}
+        scheme = B.make_scheme(irf_model(irf, kind=kind), vals, data, options={l: {"vary": False} for l in vals if not l.startswith("k.")})
+        with warnings.catch_warnings():
+            warnings.simplefilter("ignore")
+            res = optimize(scheme, verbose=False, raise_exception=True)
+        rep = res.data["d1"]
+        if "irf_center_location" not in rep:
+            vs.append(V("dispersed-irf-centres-not-reported"))
+        else:
+            loc = rep["irf_center_location"].transpose("irf_nr", "spectral").values
+            for i, lam in enumerate(axis):
+                cs, _ = effective(case, lam)
+                got = [float(x) for x in loc[:, i]]
+                want = cs if len(cs) == len(got) else cs * len(got)
+                if len(got) != len(want) or max(abs(a - b) for a, b in zip(got, want)) > 1e-12 * max(1.0, max(abs(b) for b in want)):
+                    vs.append(V("reported-irf-centre-differs-from-the-centre-the-matrix-was-built-with", index=i, coordinate=lam, got=got, want=want,
+                                wavenumber=case["wavenumber"]))  # fmt: skip
+                    break
     key = {k: case[k] for k in case if k != "seed"}
     return core.ok(key=key if index_dependent else None, outcome=len(vs), violations=vs)
 
